@@ -33,6 +33,16 @@ package utils
 //@   modifies p.$bagver
 //@   ensures uf_b_has(p, key, p.$bagver) && uf_s_peek(p, key, p.$bagver) == value
 
+// the canonical form of a request path (path.Clean plus the trailing-slash rule); abstracted as a function of the string
+//@ func CleanPath(p)
+//@   trusted "path canonicalisation (path.Clean and string slicing) abstracted by an uninterpreted function of the string"
+//@   pure
+//@   ensures result == uf_s_CleanPath(p)
+//@ func StripHostPort(h)
+//@   trusted "host:port splitting abstracted by an uninterpreted function of the string"
+//@   pure
+//@   ensures result == uf_s_StripHostPort(h)
+
 //@ func CheckInvalidHeaderChar(s)
 //@   trusted "byte scan abstracted by an uninterpreted predicate of the string"
 //@   pure
